@@ -1,25 +1,61 @@
 package main
 
 import (
+	"flag"
 	"fmt"
 	"os"
-
-	"golang.org/x/tools/go/packages"
-	"golang.org/x/tools/go/ssa"
-	"golang.org/x/tools/go/ssa/ssautil"
-	_ "github.com/yuin/gopher-lua/parse"
+	"path/filepath"
+	"strconv"
 )
 
 func main() {
-	cfg := &packages.Config{Mode: packages.LoadAllSyntax, Dir: "/repo", Env: append(os.Environ(), "GOFLAGS=-mod=mod", "GOPROXY=off")}
-	pkgs, err := packages.Load(cfg, os.Args[1:]...)
-	if err != nil {
-		panic(err)
+	repo := flag.String("repo", "/repo", "repository root")
+	verif := flag.String("verif", "/verif", "verif root")
+	tier := flag.String("tier", "quick", "quick|thorough")
+	prop := flag.String("prop", "", "property id, e.g. C01")
+	logDir := flag.String("smtlog", "", "directory for SMT logs")
+	debug := flag.Bool("debug", false, "debug output")
+	solver := flag.String("solver", "z3", "z3|z3-new|cvc5")
+	only := flag.String("only", "", "only harnesses whose name contains this")
+	flag.Parse()
+	if t := os.Getenv("VERIF_TIER"); t == "quick" || t == "thorough" {
+		if !flagSet("tier") {
+			*tier = t
+		}
 	}
-	prog, spkgs := ssautil.AllPackages(pkgs, ssa.InstantiateGenerics)
-	_ = prog
-	for _, p := range spkgs {
-		p.Build()
-		fmt.Println(p.Pkg.Path(), len(p.Members))
+	seed, _ := strconv.Atoi(os.Getenv("VERIF_SEED"))
+	var cfgs map[string]PropConfig
+	if err := loadJSON(filepath.Join(*verif, "checks.json"), &cfgs); err != nil {
+		fmt.Fprintln(os.Stderr, "checks.json:", err)
+		os.Exit(3)
 	}
+	cfg, ok := cfgs[*prop]
+	if !ok {
+		fmt.Fprintln(os.Stderr, "unknown property", *prop)
+		os.Exit(3)
+	}
+	var known []KnownFinding
+	loadJSON(filepath.Join(*verif, "known_findings.json"), &known)
+	e := NewEngine(*repo, *verif, *tier)
+	e.debug = *debug
+	e.solverKind = *solver
+	e.only = *only
+	if *logDir != "" {
+		os.MkdirAll(*logDir, 0755)
+	}
+	if err := e.Load(cfg.Pkgs); err != nil {
+		fmt.Printf("INCONCLUSIVE property=%s cannot load packages: %v\n", *prop, err)
+		os.Exit(3)
+	}
+	os.Exit(runCheck(e, *prop, cfg, known, seed, *logDir))
+}
+
+func flagSet(name string) bool {
+	found := false
+	flag.Visit(func(f *flag.Flag) {
+		if f.Name == name {
+			found = true
+		}
+	})
+	return found
 }
